@@ -144,9 +144,12 @@ class Runner:
             return stats
         chk.traces += len(terms)
         stats["region_free_agreeing_with_spec"] = len(terms) - len(res)
-        for j, code in sorted(res.items(), key=lambda jc: (not (jc[1] & 2 and jc[1] >> 2 == 0), jc[0])):
+        for j, code in sorted(res.items(), key=lambda jc: (not (jc[1] & 2 and (jc[1] >> 2) & 3 == 0), jc[0])):
             label, prog, u, files, obs = self.cases[j]
-            region = code >> 2
+            region = (code >> 2) & 3
+            if (code >> 4) & 1:
+                chk.violation("broken-correspondence", {"what": "projection is not a well-formed event list",
+                                                        "label": label, "unit": u["name"], "files": files}, False)
             for bit, key in REGION_KEYS.items():
                 if region & bit:
                     stats["regions"][key] = stats["regions"].get(key, 0) + 1
@@ -207,6 +210,11 @@ def run(chk):
     for label, prog in fixed_programs() + [(f"random:{k}", progs[k]) for k in range(min(nhtml, len(progs)))]:
         nrows, seen, problems = I.html_check(prog, G.render_files(prog))
         rows += nrows
+        if problems and all("Unknown entity" in x for x in problems) and has_unresolved_binding(prog):
+            # the recorded template-level finding: an unresolved binding target aborts the rendering
+            chk.disagreements += 1
+            if chk.known("unresolved-binding-target-aborts-rendering", False):
+                continue
         if problems:
             chk.violation("failing-input", {"what": "generated HTML does not show the reference as resolved by "
                                                     "correlate()", "problems": problems[:10], "label": label,
@@ -214,6 +222,20 @@ def run(chk):
     chk.extra["c07"] = {"programs": R.nprog, "impl_s": round(t1 - t0, 1), "judge_s": round(time.time() - t1, 1),
                         "html_rows_checked": rows, **stats}
     replay_findings(chk)
+
+
+def has_unresolved_binding(prog):
+    files = G.render_files(prog)
+    r, _ = I.observe(prog, files)
+    if isinstance(r, str):
+        return False
+    return any(d[0] == "SBindTarget" and e is None for obs in r[0].values() for _, d, e in obs)
+
+
+def witness_unresolved_binding():
+    m = sc("m", "module", uses=[{"target": "extlib", "only": [["impl", "impl"]]}],
+           types=[ty("t", binds=[{"name": "run", "deferred": False, "proto": None, "targets": ["impl"]}])])
+    return {"units": [m], "submodules": []}
 
 
 def slot_of(prog, unit, path, slot):
@@ -234,6 +256,9 @@ def replay_findings(chk):
     e1 = slot_of(p, "m", ["m", "b"], ("SVar", "y"))
     e2 = slot_of(p, "m", ["m"], ("SVar", "z"))
     chk.known("local-declarations-leak-through-shared-tables", e1 == ["m", "a", "t"] or e2 == ["m", "a", "t"])
+    prog = witness_unresolved_binding()
+    _, _, problems = I.html_check(prog, G.render_files(prog))
+    chk.known("unresolved-binding-target-aborts-rendering", any("Unknown entity" in x for x in problems))
 
 
 def replay(chk, rep):
